@@ -7,7 +7,7 @@ def fortranLineCont : String := " &\n{}& "
 /-- the f-string `line_cont` of `FortranCodegen.visit_Pragma` with the keyword replaced by `{}` -/
 def pragmaLineCont : String := " &\n!${} & "
 /-- `JoinableStringList._pattern_quoted_string.pattern` -/
-def quotedPattern : String := "(['\"])(?:[^'\"\\n]|\\1\\1)*\\1"
+def quotedPattern : String := "(?:'(?:[^'\\n]|'')*')|(?:\"(?:[^\"\\n]|\"\")*\")"
 /-- `JoinableStringList._pattern_chunk_separator.pattern` -/
 def chunkSepPattern : String := "(\\s|\\)(?!%)|\\n)"
 end LokiModel.C04.Generated
